@@ -73,6 +73,9 @@ def gen(rng, tier, idx):
     for i in range(nlooms):
         host = i % nhosts
         name = "%s.%s" % (hostnames[host], "abcdefgh"[i]) if r.chance(70) or nlooms > nhosts else hostnames[host]
+        if "." in name and r.chance(25):
+            # the host is what precedes the FIRST dot; the rest of the loom name may have dots of its own
+            name += r.choice([".1", ".x.y", ".0.0"])
         procs = []
         used_p = set()
         for _ in range(r.randint(1, 3)):
@@ -175,11 +178,18 @@ def gen(rng, tier, idx):
             table_mode = "default"
         keep = 1
         tablefmt = 0
+    huge = []
+    if idx % 400 == 203:
+        # a stream of more than 4 GiB: two or three jumbo events of 2-4 GiB each (zero bytes, left as holes of a sparse file)
+        mode = "emu"
+        huge = rc.sample([2 ** 31 - 1, 2 ** 31, 2 ** 31 + 4096, 2 ** 32 - 1, 3 * 2 ** 30, 2 ** 32 - 4097], rc.randint(2, 3))
+        if sum(huge) <= 2 ** 32:
+            huge.append(2 ** 32 - 1)
     # 10%: event-less streams that belong to no thread (ovni.part != "thread"), sorting before/between/after the others
     rf = rng.derive("foreign")
     nforeign = rf.u64() if rf.chance(10) else 0
     return {"looms": looms, "skews": skews, "table": table_mode, "keep": keep, "mode": mode, "sched": sched, "orders": orders,
-            "tie": tie, "hostnames": hostnames, "foreign": nforeign, "tablefmt": tablefmt}
+            "tie": tie, "hostnames": hostnames, "foreign": nforeign, "tablefmt": tablefmt, "shapes": rc.chance(50), "huge": huge}
 
 
 def build(case):
@@ -221,7 +231,19 @@ def build(case):
         if emu:
             streams[ti].events.append(tf.Ev("OM=", clk(ti), tf.i64(uid) + tf.i32(7)))
         else:
-            streams[ti].events.append(tf.Ev("OB.", clk(ti), tf.u64(uid)))
+            # dump mode runs no model: events of every shape, identified by their position in their stream
+            shape = Rng(uid * 1000003 + len(case["sched"])).below(100) if case.get("shapes") else 0
+            if shape < 70:
+                ev = tf.Ev("OB.", clk(ti), tf.u64(uid))
+            elif shape < 80:
+                ev = tf.Ev("OB.", clk(ti), b"", tf.u64(uid) + bytes(range(shape - 70)))
+            elif shape < 90:
+                ev = tf.Ev("OB.", clk(ti), b"", b"")            # a jumbo event without data
+            elif shape < 95:
+                ev = tf.Ev("OU.", clk(ti), b"")
+            else:
+                ev = tf.Ev("VTx", clk(ti), tf.u32(uid & 0xffffffff, 0))
+            streams[ti].events.append(ev)
         recs.append((g, ti, uid))
     if emu:
         for ti in range(nthreads):
@@ -233,6 +255,10 @@ def build(case):
             g += 1
             streams[ti].events.append(tf.Ev("OHe", clk(ti)))
             recs.append((g, ti, None))
+        if case.get("huge"):
+            # the big events sit right after the first event of the first stream, at its clock
+            ev0 = streams[0].events[0]
+            streams[0].events[1:1] = [tf.HoleEv("OB.", ev0.clock, n) for n in case["huge"]]
     # offsets table
     table = None
     if case["table"] != "none":
@@ -314,6 +340,8 @@ def run(case, ctx):
             "sample": {"looms": [(l["name"], [(p["pid"], p["threads"]) for p in l["procs"]]) for l in case["looms"]],
                        "skews_ns": case["skews"], "offset_table": case["table"], "mode": case["mode"],
                        "schedule_head": case["sched"][:10], "n_events": len(recs)}}
+    if case.get("huge"):
+        info["probes"]["stream larger than 4 GiB (sparse)"] = 1
     if nstreams > 1024:
         info["probes"]["more streams than the soft open-file limit (1024)"] = 1
     outs = []
@@ -417,25 +445,33 @@ def check_dump(ctx, tdir, case, threads, streams, recs, info):
         clock, mcv, rel, hexs = int(m.group(1)), m.group(2), m.group(3), m.group(4)
         data = bytes(int(x, 16) for x in hexs.split(":")[1:]) if hexs else b""
         seq.append((clock, mcv, rel, data))
-    exp_ids = {}
-    for si, s in enumerate(streams):
-        for e in s.events:
-            exp_ids[struct.unpack("<Q", e.payload)[0]] = (s.relpath, e.clock)
-    got = [struct.unpack("<Q", d)[0] for (_, _, _, d) in seq if len(d) == 8]
-    if len(got) != len(seq) or sorted(got) != sorted(exp_ids):
-        return result(False, "dump-lost-or-duplicated", None, "ovnidump printed %d events, trace has %d; ids differ" % (len(seq), len(exp_ids)), **info)
+    # every stream's events exactly once and in stream order, the whole in non-decreasing raw time
+    bystream = {}
     prev = None
-    lastpos = {}
     for (clock, mcv, rel, data) in seq:
-        u = struct.unpack("<Q", data)[0]
-        if exp_ids[u] != (rel, clock):
-            return result(False, "dump-wrong-attribution", None, "event %d printed as %s@%d, is %r" % (u, rel, clock, exp_ids[u]), **info)
         if prev is not None and clock < prev:
             return result(False, "dump-not-time-ordered", None, "raw clock %d printed after %d" % (clock, prev), **info)
         prev = clock
-        if rel in lastpos and lastpos[rel] > u:
-            return result(False, "dump-stream-order-broken", None, "stream %s: event %d after %d" % (rel, u, lastpos[rel]), **info)
-        lastpos[rel] = u
+        bystream.setdefault(rel, []).append((clock, mcv, data))
+    known = {s.relpath for s in streams}
+    for rel in bystream:
+        if rel not in known:
+            return result(False, "dump-wrong-attribution", None, "ovnidump prints events of a stream %r the trace does not have" % rel, **info)
+    for s in streams:
+        got = bystream.get(s.relpath, [])
+        want = [(e.clock, e.mcv, e) for e in s.events]
+        if len(got) != len(want):
+            return result(False, "dump-lost-or-duplicated", None, "stream %s: ovnidump printed %d events, the stream has %d"
+                          % (s.relpath, len(got), len(want)), **info)
+        for k, ((gc, gm, gd), (wc, wm, e)) in enumerate(zip(got, want)):
+            if e.jumbo is None:
+                okdata = gd == e.payload
+            else:
+                okdata = gd in (e.jumbo, struct.pack("<I", len(e.jumbo)) + e.jumbo)
+            if (gc, gm) != (wc, wm) or not okdata:
+                return result(False, "dump-stream-order-broken" if (gc, gm) != (wc, wm) else "dump-wrong-attribution", None,
+                              "stream %s: event #%d printed as %s@%d with %d data bytes, the stream has %s@%d with %d"
+                              % (s.relpath, k, gm, gc, len(gd), wm, wc, len(e.payload if e.jumbo is None else e.jumbo)), **info)
     status, out, err = ctx.run_tool("ovnitop", [tdir])
     if status != 0:
         return result(False, "ovnitop-failed", None, "ovnitop exit %s" % status, **info)
